@@ -16,6 +16,10 @@ ASSUMPTIONS = A01 + [
     "LevelDataIterator: the per-call contract of __next__ over the abstract state (file f, p consumed) is proved; that "
     "successive calls enumerate the concatenation is the (spec-level) induction over that state machine",
     "every binary file named by a level header holds at least one FAB (NBF >= 1)",
+    "pool lifetime (assumed contract of CPython's multiprocessing.pool, observed on 3.12.1, not derived): a pool referenced by "
+    "nothing but its own imap iterator is finalised from one of its handler threads and next() can then block for ever; "
+    "the obligation post.pool-outlives-the-iterator requires a holder (with-block of a generator, attribute); termination "
+    "of the pool machinery itself is not proved, the run-time layer consumes every on-demand iterator under a watchdog",
 ]
 TRUSTED = T01 + ["multiprocessing.Pool.imap yields f(x) for x in xs in submission order (pool contract, assumed)",
                  "numpy: np.unique(x) is a duplicate-free enumeration of the values of x"]
